@@ -84,6 +84,7 @@ type Scenario struct {
 	TrialShut    bool   `json:"trial_shut,omitempty"`     // fail_start noreader: a Shutdown is issued while the start that cannot succeed is under way (no other start follows): it may be accepted or refused, it must come back
 	ShutB        bool   `json:"shutdown_b,omitempty"`     // a second, concurrent Shutdown
 	Shut3        bool   `json:"shutdown_3,omitempty"`     // a Shutdown after the first has returned
+	DrainFail    string `json:"drain_fail,omitempty"`     // while the Shutdown is (or may be) waiting for handlers, a start that cannot succeed is attempted (bogus | tcp-tls: a network nobody knows / TLS without a certificate): it is refused, and that is all it does
 }
 
 func Gen(seed uint64, tier string) any {
@@ -189,6 +190,9 @@ func Gen(seed uint64, tier string) any {
 	}
 	if sc.FailStart == "noreader" && core.Chance(r, 50) {
 		sc.TrialShut = true
+	}
+	if !sc.Start2 && !sc.Early && sc.FailStart == "" && !sc.Again && core.Chance(r, 10) {
+		sc.DrainFail = core.Pick(r, "bogus", "tcp-tls")
 	}
 	if sc.Transport != "udp" && len(sc.Transient) == 0 && !sc.Start2 && !sc.Early && sc.FailStart == "" && !sc.Again && core.Chance(r, 6) {
 		// (not together with a second start: the serve call that ends early would let the second one begin after the shutdown - a restart, which the property does not cover)
@@ -365,6 +369,7 @@ type run struct {
 	cliFin     []bool
 	lifeFin    bool
 	shutBFin   bool
+	drainFin   bool
 	entered    int
 	exited     int
 }
@@ -806,6 +811,42 @@ func (x *run) anyShutdownOK() bool {
 	return false
 }
 
+// drainFailTask: once a Shutdown has been issued - and is, in many runs, still waiting for handlers - a start that cannot
+// succeed is attempted. The server is not started at that moment, so the attempt is taken up, and refused for its own
+// reasons; the Shutdown that is under way must not feel it.
+type drainFailTask struct{ x *run }
+
+//go:norace
+func (s *drainFailTask) RunEvent(time.Time) {
+	x, k := s.x, s.x.k
+	k.Observe()
+	defer x.fin(&x.drainFin)
+	if !k.Wait("drainfail.wait", 0, common.Flag{V: &x.shutCalled}, 0) {
+		return
+	}
+	k.WaitSteps("drainfail.steps", 2+int(x.sc.RunSeed%9), time.Millisecond)
+	k.Lock()
+	begun := x.notified
+	k.Unlock()
+	if !begun {
+		return // that Shutdown came before the server had started: the start under test has yet to read its configuration
+	}
+	keepNet, keepTLS := x.srv.Net, x.srv.TLSConfig
+	x.srv.Net, x.srv.TLSConfig = x.sc.DrainFail, nil
+	t0 := time.Now()
+	err := x.srv.ListenAndServe()
+	x.srv.Net, x.srv.TLSConfig = keepNet, keepTLS
+	k.Lock()
+	k.BumpLocked("fault.failing_start_during_shutdown")
+	x.res.Stats["oracle.S5_failed_start"]++
+	if err == nil {
+		x.res.Fail("S5", "impossible-start-succeeded", "a start that cannot succeed (%s), attempted after Shutdown had been called, returned nil", x.sc.DrainFail)
+	} else if d := time.Since(t0); d > time.Second {
+		x.res.Fail("S5", "start-refusal-slow", "a start that cannot succeed (%s) was refused only after %v of simulated time", x.sc.DrainFail, d)
+	}
+	k.Unlock()
+}
+
 type shutBTask struct{ x *run }
 
 //go:norace
@@ -1020,7 +1061,7 @@ type doneCheck struct{ x *run }
 //go:norace
 func (d doneCheck) Check(time.Time) string {
 	x := d.x
-	if !x.lifeFin || (x.sc.ShutB && !x.shutBFin) {
+	if !x.lifeFin || (x.sc.ShutB && !x.shutBFin) || (x.sc.DrainFail != "" && !x.drainFin) {
 		return ""
 	}
 	for _, f := range x.cliFin {
@@ -1198,6 +1239,9 @@ func runLife(sc *Scenario, res *core.Result, k *kernel.K, n *simnet.Net, x *run,
 	k.Go("life", &lifeTask{x})
 	if sc.ShutB {
 		k.Go("shutB", &shutBTask{x})
+	}
+	if sc.DrainFail != "" {
+		k.Go("drainfail", &drainFailTask{x})
 	}
 	for ci := range sc.Clients {
 		k.Go("client"+strconv.Itoa(ci), &clientTask{x, ci})
